@@ -695,6 +695,27 @@ def decl_program():
             ],
         ),
         fn(
+            "d4",
+            ["p"],
+            [
+                # the same variable declared on both branches: every declaration
+                # that is *executed* demands a value, whatever came earlier in the source
+                ["if", [["ann", "x", "int", None], ["bind", "y", ["add", var("x"), V]]],
+                       [["ann", "x", "int", None], ["bind", "y", var("x")]]],
+                use("x", "y"),
+                ["ret", var("y")],
+            ],
+        ),
+        fn(
+            "d5",
+            ["p"],
+            [
+                ["for", "i", [["ann", "x", '"@A"', None], use("x", "i")], []],
+                ["if", [["bind", "z", V]], [["ann", "z", "int", None]]],
+                ["ret", var("z")],
+            ],
+        ),
+        fn(
             "u1",
             ["p"],
             [
